@@ -237,7 +237,8 @@ def ctl_result(model: Model, ex, c: str):
     g = copy.copy(ex.ctl_generic)
     g.field_of_var = {}
     gfi = model.functions[g.func]
-    call = dispatch_call(gfi)
+    flat = getattr(ex.ctl_generic, "flat_body", None)
+    call = dispatch_call(ast.Module(body=flat, type_ignores=[])) if flat else dispatch_call(gfi)
     if call is None:
         raise AnalysisError("unpack_ldap_control does not call unpack_func")
     for k in call.keywords:
